@@ -386,3 +386,66 @@ func CheckClosedDir(dir string, keys, times, mono bool) error {
 	}
 	return nil
 }
+
+// CheckIndexLayout verifies, for ANY message times, that every index file has the documented content:
+// offsets, positions and key hashes of the records in the log, and timestamps that are the running maximum
+// of the message times of the records IN THE FILE, starting from one carried value c >= 0 per segment
+// (c = 0 for an index built from the log alone, c = the last timestamp of the previous segment for an
+// index written by the appending writer). A timestamp that no c explains is not the documented layout.
+func CheckIndexLayout(dir string, keys, times bool) error {
+	segs, err := ReadSegs(dir)
+	if err != nil {
+		return err
+	}
+	for _, s := range segs {
+		if !s.Clean || !s.HasIdx {
+			continue
+		}
+		ib, err := os.ReadFile(s.IdxPath)
+		if err != nil {
+			return err
+		}
+		items, _, err := RefParseIndex(ib, keys, times)
+		if err != nil {
+			return fmt.Errorf("segment %d: %w", s.Base, err)
+		}
+		if len(items) != len(s.Recs) {
+			return fmt.Errorf("segment %d: index has %d items, log has %d records", s.Base, len(items), len(s.Recs))
+		}
+		var runMax int64
+		carryMax := int64(-1) // the largest c still possible (-1 = unconstrained), c must also be >= carryMin
+		carryMin := int64(0)
+		for i, r := range s.Recs {
+			it := items[i]
+			if it.Off != r.Off || it.Pos != r.Pos || (keys && it.KH != RefFNV1a64(r.Key)) {
+				return fmt.Errorf("segment %d item %d: index file has %+v, record is offset %d at %d", s.Base, i, it, r.Off, r.Pos)
+			}
+			if !times {
+				continue
+			}
+			if i == 0 || r.TS > runMax {
+				runMax = r.TS
+			}
+			// it.TS must equal max(c, runMax)
+			switch {
+			case it.TS < runMax:
+				return fmt.Errorf("segment %d item %d: index timestamp %d is below the running maximum %d of the message times in the file", s.Base, i, it.TS, runMax)
+			case it.TS == runMax:
+				// c <= runMax
+				if carryMax < 0 || runMax < carryMax {
+					carryMax = runMax
+				}
+			default:
+				// c == it.TS exactly
+				if it.TS < carryMin || (carryMax >= 0 && it.TS > carryMax) {
+					return fmt.Errorf("segment %d item %d: index timestamp %d is neither the running maximum %d of the message times in the file nor one carried value", s.Base, i, it.TS, runMax)
+				}
+				carryMin, carryMax = it.TS, it.TS
+			}
+			if carryMax >= 0 && carryMin > carryMax {
+				return fmt.Errorf("segment %d item %d: index timestamps are not a running maximum from one carried value", s.Base, i)
+			}
+		}
+	}
+	return nil
+}
